@@ -127,6 +127,29 @@ ip6_sort(const void *l, const void *r)
 }
 
 /**
+ * @brief check if a MX entry has to be sorted before another one
+ * @param n the entry to insert
+ * @param cur the entry already in the list
+ * @return if n must be placed before cur
+ *
+ * An entry goes first if it has the lower priority. If both have the same
+ * priority and IPv6 is permitted an entry that contains IPv6 addresses goes
+ * before one that has only IPv4 addresses. Otherwise the existing order is kept.
+ */
+static int
+mx_sorts_before(const struct ips *n, const struct ips *cur)
+{
+	if (n->priority != cur->priority)
+		return (n->priority < cur->priority);
+
+#ifdef IPV4ONLY
+	return 0;
+#else
+	return !IN6_IS_ADDR_V4MAPPED(n->addr) && IN6_IS_ADDR_V4MAPPED(cur->addr);
+#endif
+}
+
+/**
  * @brief sort MX list by priority
  * @param p list of MX entries
  *
@@ -185,17 +208,11 @@ sortmx(struct ips **p)
 		struct ips *this = res;
 		struct ips *tmp = next->next;
 
-		if ((res->priority > next->priority)
-#ifndef IPV4ONLY
-				|| ((res->priority == next->priority)
-					&& IN6_IS_ADDR_V4MAPPED(res->addr)
-					&& !IN6_IS_ADDR_V4MAPPED(next->addr))
-#endif
-				) {
+		if (mx_sorts_before(next, res)) {
 			next->next = res;
 			res = next;
 		} else {
-			while (this->next && (this->next->priority <= next->priority)) {
+			while (this->next && !mx_sorts_before(next, this->next)) {
 				this = this->next;
 			}
 			tmp = next->next;
